@@ -23,6 +23,8 @@ type Style struct {
 type Ser struct {
 	C  Chooser
 	St Style
+
+	wsBlank int // 0 = not drawn yet, 1 = separators are empty lines, 2 = separators may hold white space
 }
 
 func (s *Ser) pick(label string, n int) int {
@@ -330,6 +332,31 @@ type line struct {
 	s    string
 	lazy bool // paragraph continuation line: container markers may be dropped
 	ind  int  // number of leading spaces of s that are structural indentation (may be spelled with tabs)
+	sep  bool // a blank line that separates two blocks or items: s is empty or only spaces and tabs
+}
+
+// sepLine is a blank line between two blocks. The spec calls a line of spaces
+// and tabs a blank line like an empty one, whatever its width and wherever it
+// stands, so a separator may be spelled with white space (one document in
+// four uses such spellings; the canonical style never does).
+func (s *Ser) sepLine() line {
+	if s.St.Canonical {
+		return line{sep: true}
+	}
+	if s.wsBlank == 0 {
+		s.wsBlank = 1
+		if s.pick("wsblankdoc", 4) == 3 {
+			s.wsBlank = 2
+		}
+	}
+	if s.wsBlank != 2 {
+		return line{sep: true}
+	}
+	ws := []string{"", "", " ", "  ", "    ", "     ", "        ", "\t", "\t\t", " \t", "   \t ", "\t  "}[s.pick("wsblank", 12)]
+	if s.St.NoTabs {
+		ws = strings.ReplaceAll(ws, "\t", "  ")
+	}
+	return line{s: ws, sep: true}
 }
 
 type sctx struct {
@@ -515,6 +542,9 @@ func (s *Ser) block(b *Block, c sctx) []line {
 			switch {
 			case l.lazy && i > 0 && !s.St.NoLazy && s.pick("lazy", 8) == 7:
 				out = append(out, line{s: l.s, lazy: true})
+			case l.sep && l.s != "":
+				// white space after the marker: still a blank line inside the quote
+				out = append(out, line{s: ind + ">" + l.s})
 			case l.s == "":
 				out = append(out, line{s: ind + ">" + strings.Repeat(" ", s.pick("emptyquotesp", 2))})
 			// at the top level the column of '>' is known: a tab after it advances to
@@ -559,7 +589,7 @@ func (s *Ser) block(b *Block, c sctx) []line {
 			}
 			inner := s.blocks(it, b.Tight, sctx{bullets: c.bullets + bl, first: true})
 			if !b.Tight && j > 0 && (!multiBlock || s.St.Canonical || s.pick("itemgap", 3) != 2) {
-				out = append(out, line{s: ""})
+				out = append(out, s.sepLine())
 			}
 			// an item may begin with a blank line: the marker stands alone on
 			// its line and the content follows at marker width + 1, however
@@ -580,6 +610,10 @@ func (s *Ser) block(b *Block, c sctx) []line {
 					// the marker line was written above
 				case i == 0:
 					out = append(out, line{s: ind + marker + strings.Repeat(" ", n) + l.s})
+				case l.sep:
+					// a separator keeps its own white space and gets no indentation:
+					// a blank line belongs to the item whatever its width
+					out = append(out, l)
 				case l.s == "":
 					out = append(out, line{s: ""})
 				case l.lazy && !s.St.NoLazy && s.pick("lazyitem", 10) == 9:
@@ -597,9 +631,9 @@ func (s *Ser) blocks(bs []*Block, tight bool, c sctx) []line {
 	var out []line
 	for i, b := range bs {
 		if i > 0 && !tight {
-			out = append(out, line{s: ""})
+			out = append(out, s.sepLine())
 			if s.pick("twoblank", 6) == 5 {
-				out = append(out, line{s: ""})
+				out = append(out, s.sepLine())
 			}
 		}
 		bc := sctx{top: c.top, last: c.top && i == len(bs)-1}
